@@ -129,11 +129,7 @@ def grammar_snapshot(g):
         "terminals": tuple(sorted(names(g.terminals))),
         "non_terminals": tuple(sorted(names(g.non_terminals))),
         "abstract_dist_to_t": tuple(
-            sorted(
-                (tname(k), tuple(sorted((tname(k2), v2) for k2, v2 in v.items() if v2 < 1000000)))
-                for k, v in g.abstract_dist_to_t.items()
-                if any(v2 < 1000000 for v2 in v.values())
-            ),
+            sorted((tname(k), tuple(sorted((tname(k2), v2) for k2, v2 in v.items()))) for k, v in g.abstract_dist_to_t.items()),
         ),
         "weights": tuple(sorted((tname(k), v) for k, v in g.get_weights().items())),
         "gengy": tuple(gengy),
